@@ -228,7 +228,9 @@ func examineSnaps(
 	testIDs := []string{}
 
 	for _, snapPath := range used {
-		f, err := os.OpenFile(snapPath, os.O_RDWR, os.ModePerm)
+		// reporting needs no write access (read-only checkouts),
+		// the file is reopened for writing only if it has to be rewritten
+		f, err := os.Open(snapPath)
 		if err != nil {
 			return nil, err
 		}
@@ -297,7 +299,10 @@ func examineSnaps(
 			slices.SortFunc(testIDs, naturalSort)
 		}
 
-		if err := overwriteFile(f, nil); err != nil {
+		f.Close()
+
+		f, err = os.OpenFile(snapPath, os.O_WRONLY|os.O_TRUNC, os.ModePerm)
+		if err != nil {
 			return nil, err
 		}
 
